@@ -299,6 +299,11 @@ def from_ast(e: ast.AST, env: Env) -> Term:
         fname = CANON_FUNCS.get(fs)
         if fname is not None and not kw:
             return t_call(fname, args)
+        if fs in ('np.where', 'numpy.where') and len(args) == 3 and not kw:
+            # piecewise value: the same term on both sides is that term; otherwise it stays an explicit piecewise atom
+            if args[1] == args[2]:
+                return args[1]
+            return Term.atom(('call', 'where', tuple(a.key() for a in args)))
         # repo function to inline / self method
         short = fs.split('.')[-1]
         if env.self_call is not None and fs.startswith('self.'):
@@ -317,6 +322,9 @@ def from_ast(e: ast.AST, env: Env) -> Term:
         return Term.atom(('call', fs, tuple(a.key() for a in args) + tuple(('kw', k, v.key()) for k, v in sorted(kw.items()))))
     if isinstance(e, ast.Subscript):
         return Term.sym(norm(e))
+    if isinstance(e, ast.Compare):
+        # a data-dependent condition: an opaque atom (it can only make a formula piecewise, see np.where)
+        return Term.atom(('cond', norm(e)))
     raise Unknown('expression kind %s: %s' % (type(e).__name__, norm(e)[:50]))
 
 
